@@ -481,7 +481,12 @@ func ToPairAlign(samIn, ref io.Reader, outpath string, wrap int, trimStart int, 
 
 	go groupSamRecords(samIn, cSH, cSR, cReadDone, cErr)
 
-	_ = <-cSH
+	// (the reader reports a missing or unreadable header on the error channel instead)
+	select {
+	case err := <-cErr:
+		return err
+	case <-cSH:
+	}
 
 	// everything written to stdout shares one stream, so there the pairs have to arrive in input order
 	cPairWrite := cPairTrim
